@@ -28,6 +28,8 @@ def run(ctx):
            f"unquoter constructors differ: py {ip} {mp} vs pyx {ic} {mc}", sample="same inner quoters, same options")
     pyi_check(ctx)
     drop_stage(ctx)
+    from ..rules.immut import im9
+    im9(ctx)        # neither implementation may keep per-instance state between calls (the other one does not)
 
 
 def pyi_check(ctx):
